@@ -15,9 +15,9 @@
 (* method hands them out.  N events and N lots, N = 3 (the sums are        *)
 (* written out, which keeps the formulas first order).                     *)
 (*                                                                         *)
-(* tools/apalache_pairing.sh runs the two obligations and a sensitivity    *)
-(* control: the loop with the third branch forgetting to reduce the event  *)
-(* (NextBroken) must NOT preserve IndInv.                                  *)
+(* harness/gen.py (prove_pairing, run by check C02) runs the obligations   *)
+(* and a sensitivity control: the loop whose third branch forgets to       *)
+(* reduce the event (NextBroken) must NOT preserve IndInv.                  *)
 (***************************************************************************)
 EXTENDS Integers
 
